@@ -207,6 +207,8 @@ class Sandbox:
             try:
                 for part in q.split('.'):
                     if isinstance(obj, type):
+                        if part.startswith('__') and not part.endswith('__') and part not in obj.__dict__:
+                            part = '_%s%s' % (obj.__name__.lstrip('_'), part)
                         obj = obj.__dict__[part]
                     else:
                         obj = getattr(obj, part)
